@@ -46,6 +46,9 @@ pub enum Operand {
 pub enum Event {
     /// One application of a segment to an evaluation state.
     Segment {
+        /// 0 for the segments of the query itself; > 0 for the inner part of a descendant
+        /// segment and for segments of queries nested in filters
+        depth: usize,
         text: String,
         /// `None` when the state was not a node list (value / nothing)
         input: Option<Vec<(usize, String)>>,
@@ -77,6 +80,7 @@ thread_local! {
     static SKIP: Cell<bool> = Cell::new(false);
     static MUTE: Cell<u32> = Cell::new(0);
     static ON: Cell<bool> = Cell::new(false);
+    static DEPTH: Cell<usize> = Cell::new(0);
 }
 
 /// Installs the sink of the calling thread (replacing a previous one).
@@ -90,6 +94,7 @@ pub fn uninstall() -> Option<Box<dyn FnMut(Event)>> {
     ON.with(|o| o.set(false));
     SKIP.with(|s| s.set(false));
     MUTE.with(|m| m.set(0));
+    DEPTH.with(|d| d.set(0));
     SINK.with(|s| s.borrow_mut().take())
 }
 
@@ -113,6 +118,15 @@ pub fn reenter<R>(f: impl FnOnce() -> R) -> R {
     let r = f();
     SKIP.with(|s| s.set(false));
     r
+}
+
+/// Runs `f` one segment-nesting level deeper; returns the level `f` ran under and its result.
+pub fn nested<R>(f: impl FnOnce() -> R) -> (usize, R) {
+    let d = DEPTH.with(|c| c.get());
+    DEPTH.with(|c| c.set(d + 1));
+    let r = f();
+    DEPTH.with(|c| c.set(d));
+    (d, r)
 }
 
 /// Runs `f` with all hooks silent (used for the extra evaluations a hook needs for its event).
